@@ -219,6 +219,34 @@ def actorSelect (bioLinks : List Str) (n : Int) : Option Sel :=
   | .body l => some ⟨l, Mime.unknown⟩
   | _ => none
 
+/-! ### Any item (`Tangible.SelectLink`) -/
+
+/-- What an item's answer to `SelectLink(n)` depends on: a post's body links and loaded
+    attachments, an actor's bio links, an activity's target (`Activity.SelectLink` hands the number
+    on unchanged to whatever it wraps); a failure item answers nothing. -/
+inductive Item where
+  | post (bodyLinks : List Str) (atts : List T)
+  | actor (bioLinks : List Str)
+  | activity (target : Item)
+  | failure
+
+/-- `Post.SelectLink(n)` over the attachment list the post holds (empty when loading failed). -/
+def postSelectOf (bodyLinks : List Str) (atts : List T) (n : Int) : Option Sel :=
+  match Select.post bodyLinks atts n with
+  | .none => none
+  | .body l => some ⟨l, Mime.unknown⟩
+  | .attachment a => select a
+
+/-- `Tangible.SelectLink(n)` of any item; in particular `Activity.SelectLink(n)`. -/
+def itemSelect : Item → Int → Option Sel
+  | .post b atts, n => postSelectOf b atts n
+  | .actor b, n => actorSelect b n
+  | .activity t, n => itemSelect t n
+  | .failure, _ => none
+
+/-- `Activity.SelectLink(n)`: the target's answer to the same number. -/
+def activitySelect (target : Item) (n : Int) : Option Sel := itemSelect target n
+
 /-- What the hook program is started with for a selection. -/
 def open_ (hook : List Str) (s : Sel) : Except Panic Hook.Cmd := Hook.build hook s.link s.mt
 
